@@ -318,7 +318,7 @@ def ref_ext_ns(shape, p, V):
     A, B, X, Y = shape
 
     def ref(Vm, inst):
-        mats = [np.asarray(m) for m in Vm.mats]
+        mats = [np.asarray(Vm.herm(i)) for i in range(len(Vm))]     # textbook domain: complex Hermitian operators (a real-symmetric captured variable fails T1)
         K, c = {}, 0
         for a, b_, x, y in itertools.product(range(A), range(B), range(X), range(Y)):
             K[(a, b_, x, y)] = mats[c]
